@@ -68,6 +68,11 @@ func comparedFields(w *World, pr *prover, fns []*ssa.Function) map[string]string
 					switch name {
 					case "ItemsEqual", "Equals", "Equal", "EqualFold":
 						note(args, name, in)
+					default:
+						// a small package helper that compares its first two parameters (propertyDiffers(ours, theirs))
+						if cal := x.Common().StaticCallee(); cal != nil && w.InPkg(cal) && comparesFirstTwoParams(cal) {
+							note(args, name+"→compare", in)
+						}
 					}
 				}
 			}
@@ -489,6 +494,10 @@ func mispairedComparisons(w *World, pr *prover, fns []*ssa.Function, nok *int) [
 					switch name {
 					case "ItemsEqual", "Equals", "Equal", "EqualFold":
 						judge(f, allArgs(x), name, in)
+					default:
+						if cal := x.Common().StaticCallee(); cal != nil && w.InPkg(cal) && comparesFirstTwoParams(cal) {
+							judge(f, allArgs(x), name+"→compare", in)
+						}
 					}
 				}
 			}
@@ -900,4 +909,49 @@ func checkC19(w *World, c *Check, tier string) {
 		}
 	}
 	_ = sort.Strings
+}
+
+var cmpParamsMemo = map[*ssa.Function]bool{}
+
+// comparesFirstTwoParams: f's body relates its first parameter to its second in a comparison (==, !=, ItemsEqual,
+// Equals, Equal, EqualFold), directly on the parameters.
+func comparesFirstTwoParams(f *ssa.Function) bool {
+	if r, ok := cmpParamsMemo[f]; ok {
+		return r
+	}
+	cmpParamsMemo[f] = false
+	if f.Blocks == nil || len(f.Params) < 2 {
+		return false
+	}
+	isP := func(v ssa.Value, i int) bool { return unwrap(v) == ssa.Value(f.Params[i]) }
+	res := false
+	for _, b := range f.Blocks {
+		for _, in := range b.Instrs {
+			var a, c ssa.Value
+			switch x := in.(type) {
+			case *ssa.BinOp:
+				if x.Op == token.EQL || x.Op == token.NEQ {
+					a, c = x.X, x.Y
+				}
+			case *ssa.Call:
+				name := ""
+				if cal := x.Common().StaticCallee(); cal != nil {
+					name = cal.Name()
+				} else if x.Common().IsInvoke() {
+					name = x.Common().Method.Name()
+				}
+				switch name {
+				case "ItemsEqual", "Equals", "Equal", "EqualFold":
+					if args := allArgs(x); len(args) >= 2 {
+						a, c = args[0], args[1]
+					}
+				}
+			}
+			if a != nil && c != nil && ((isP(a, 0) && isP(c, 1)) || (isP(a, 1) && isP(c, 0))) {
+				res = true
+			}
+		}
+	}
+	cmpParamsMemo[f] = res
+	return res
 }
